@@ -18,6 +18,10 @@
  *   c06_r2 legacy1 <version 5|6|7> <block type 1=raw 2=rle> <size>
  *        hand-built legacy frames with one raw / RLE block of up to 524287 bytes: ZSTD_decompressBound >= decoded size,
  *        ZSTD_findFrameCompressedSize exact, exactly sized fenced destination.
+ *   c06_r2 legacy2 <version 5|6|7> <nbSeq 1..3> <matchLength 4..131074>     (round 3; also run by "legacy")
+ *        hand-built legacy frames with one COMPRESSED block of nbSeq sequences (litLength 1, offset 1, matchLength):
+ *        a block above 128 KiB must be refused (39f3df0), one of at most 128 KiB must decode, and whatever decodes stays
+ *        within ZSTD_decompressBound; exactly sized / short fenced destinations.
  *
  * Output: "CASE ..." facts, "BAD <what> :: <case>" violations, "FAULT ... :: <case>" from the signal handler. */
 #define ZSTD_STATIC_LINKING_ONLY
@@ -590,6 +594,107 @@ static void legacy_all(unsigned seed)
     }
 }
 
+
+/* =================================================================== legacy frames whose COMPRESSED block regenerates too much (round 3) */
+/* hand-built v0.5 / v0.6 / v0.7 frames with one compressed block: raw literals (nbSeq bytes 'A'..), nbSeq sequences
+   (litLength 1, offset 1, matchLength ml), all three symbol tables in RLE mode.  v0.6 / v0.7: ML code + extra bits in the
+   backward bitstream; v0.5: matchLength through the "dumps".  Before 39f3df0 the one-shot legacy decoders regenerated
+   whatever the sequences asked for (only the whole remaining dst limited a block) while ZSTD_decompressBound counted
+   128 KiB per compressed block; now a compressed block above 128 KiB is corruption_detected.  Required: a frame that
+   decodes stays within ZSTD_decompressBound; a block of at most 128 KiB still decodes. */
+static const unsigned L2_mlBase[53] = { 3,4,5,6,7,8,9,10,11,12,13,14,15,16,17,18,19,20,21,22,23,24,25,26,27,28,29,30,31,32,33,34,
+    35,37,39,41,43,47,51,59,67,83,99,0x83,0x103,0x203,0x403,0x803,0x1003,0x2003,0x4003,0x8003,0x10003 };
+static const unsigned L2_mlBits[53] = { 0,0,0,0,0,0,0,0,0,0,0,0,0,0,0,0,0,0,0,0,0,0,0,0,0,0,0,0,0,0,0,0,
+    1,1,1,1,2,2,3,3,4,4,5,7,8,9,10,11,12,13,14,15,16 };
+static size_t legacy2_block(unsigned char* b, int ver, unsigned nbSeq, size_t ml)
+{
+    size_t n = 0; unsigned i;
+    b[n++] = (unsigned char)(0x80 | nbSeq);                       /* raw literals, 1-byte header, nbSeq literals */
+    for (i = 0; i < nbSeq; i++) b[n++] = (unsigned char)('A' + i);
+    b[n++] = (unsigned char)nbSeq;
+    if (ver == 5) {
+        size_t const v = ml - 4; unsigned const dl = 4 * nbSeq + 1;
+        b[n++] = 0x54; b[n++] = (unsigned char)dl;                /* LL / Off / ML tables RLE; dumps length (short form) */
+        for (i = 0; i < nbSeq; i++) { size_t const x = 2 * v + 1; b[n++] = 255; b[n++] = (unsigned char)x; b[n++] = (unsigned char)(x >> 8); b[n++] = (unsigned char)(x >> 16); }
+        b[n++] = 0;
+        b[n++] = 1; b[n++] = 1; b[n++] = 127;                     /* litLength 1, offset code 1 (offset 1, no extra bit), ML = MaxML -> dumps */
+        b[n++] = 1;                                               /* empty bitstream: the end mark alone */
+    } else {
+        int code = 52; unsigned long long V = 1; unsigned bits;
+        while (L2_mlBase[code] > ml) code--;
+        bits = L2_mlBits[code];
+        b[n++] = 0x54; b[n++] = 1; b[n++] = 2; b[n++] = (unsigned char)code;   /* LL code 1, Off code 2 (offset 1 + 2 extra bits), ML code */
+        /* per sequence the decoder reads: 2 offset bits (0), then the ML extra bits; the stream is read from its end */
+        {   unsigned char tmp[64]; size_t nb = 0, k; unsigned acc = 0; /* build the bit string MSB first: mark, then fields */
+            /* total bits = 1 + nbSeq * (2 + bits) <= 1 + 3 * 18 = 55: fits one 64-bit word */
+            for (i = 0; i < nbSeq; i++) { V = (V << 2) | 0; V = (V << bits) | (unsigned long long)(ml - L2_mlBase[code]); }
+            while (V) { tmp[nb++] = (unsigned char)V; V >>= 8; }
+            for (k = 0; k < nb; k++) b[n++] = tmp[k];
+            (void)acc;
+        }
+    }
+    return n;
+}
+static void legacy2_case(int ver, unsigned nbSeq, size_t ml)
+{
+    unsigned char blk[96]; size_t bl, hl = 0, fs, total = (size_t)nbSeq * (1 + ml); unsigned char* f; unsigned char* dst;
+    size_t dec, dec2, fcs, cap = 600000; unsigned long long bnd;
+    snprintf(g_desc, sizeof g_desc, "legacy2 %d %u %zu", ver, nbSeq, ml);
+    if (nbSeq < 1 || nbSeq > 3 || ml < 4 || ml > 131074 || (ver != 5 && ver != 6 && ver != 7)) { fprintf(stderr, "bad legacy2 case\n"); exit(2); }
+    bl = legacy2_block(blk, ver, nbSeq, ml);
+    fs = 4 + 1 + (ver == 7) + 3 + bl + 3;
+    f = L_src.hi - fs;
+    f[hl++] = (unsigned char)(0x20 + ver); f[hl++] = 0xB5; f[hl++] = 0x2F; f[hl++] = 0xFD;
+    f[hl++] = (ver == 6) ? 0x08 : 0x00;                           /* v0.6: windowLog 12 + 8 */
+    if (ver == 7) f[hl++] = 0x50;
+    f[hl++] = 0; f[hl++] = (unsigned char)(bl >> 8); f[hl++] = (unsigned char)bl;
+    memcpy(f + hl, blk, bl); hl += bl;
+    f[hl++] = 0xC0; f[hl++] = 0; f[hl++] = 0;
+    dst = region_place(&L_dst, cap, 0);
+    dec = ZSTD_decompress(dst, cap, f, fs);
+    bnd = ZSTD_decompressBound(f, fs);
+    fcs = ZSTD_findFrameCompressedSize(f, fs);
+    if (ZSTD_isError(fcs) || fcs != fs) bad("legacy-findFrameCompressedSize-differs", fs, fcs);
+    if (ZSTD_isError(dec)) {
+        if (total <= 131072) bad("legacy-block-within-128K-refused", total, dec);
+    } else {
+        size_t i;
+        if (bnd == ZSTD_CONTENTSIZE_ERROR) bad("legacy-decompressBound-error-on-a-frame-that-decodes", dec, 0);
+        else if (bnd < dec) bad("legacy-decompressBound-below-decoded-size", (size_t)bnd, dec);
+        if (dec != total) bad("legacy-decoded-size-unexpected", total, dec);
+        for (i = 0; i < dec; i++) if (dst[i] != (unsigned char)('A' + i / (1 + ml))) { bad("legacy-content", i, dec); break; }
+        dst = region_place(&L_dst, dec, 0);
+        dec2 = ZSTD_decompress(dst, dec, f, fs);
+        if (region_check(&L_dst, dst, dec, 0)) bad("write-outside-dst", dec, dec2);
+        /* the legacy decoders want WILDCOPY_OVERLENGTH (8) bytes behind the literals of every sequence ("last match must start at a
+           minimum distance of 8 from oend", a rule their encoders obeyed): a final match below 8 bytes may need a larger dst */
+        if (dec2 != dec && !(ml < 8 && ZSTD_isError(dec2))) bad("legacy-exact-capacity-failed", dec, dec2);
+        {   size_t const shorts[] = { 1, 2, 7, 8, 9, 16, 17, 33 }; size_t k;
+            for (k = 0; k < sizeof shorts / sizeof *shorts; k++) if (dec >= shorts[k]) {
+                size_t const c = dec - shorts[k];
+                dst = region_place(&L_dst, c, (int)(k & 1)); dec2 = ZSTD_decompress(dst, c, f, fs);
+                if (region_check(&L_dst, dst, c, (int)(k & 1))) bad("write-outside-dst", c, dec2);
+                if (!ZSTD_isError(dec2)) bad("legacy-accepted-short-capacity", c, dec2);
+        }   }
+        if (bnd != ZSTD_CONTENTSIZE_ERROR && bnd <= cap) { dst = region_place(&L_dst, (size_t)bnd, 0); dec2 = ZSTD_decompress(dst, (size_t)bnd, f, fs);
+            if (dec2 != dec) bad("legacy-decode-into-decompressBound-failed", (size_t)bnd, dec2); }
+    }
+    printf("CASE fam=legacy2 ver=%d nbSeq=%u ml=%zu total=%zu dec=%lld bound=%lld\n", ver, nbSeq, ml, total, ZSTD_isError(dec) ? -1LL : (long long)dec,
+           bnd == ZSTD_CONTENTSIZE_ERROR ? -1LL : (long long)bnd);
+}
+static void legacy2_all(unsigned seed)
+{
+    static const size_t mls[] = { 4, 35, 1000, 65536, 131070, 131071, 131072, 131074 };
+    int ver; size_t k; unsigned nb;
+    rseed(seed + 77);
+    for (ver = 5; ver <= 7; ver++) {
+        for (k = 0; k < sizeof mls / sizeof *mls; k++) legacy2_case(ver, 1, mls[k]);
+        legacy2_case(ver, 2, 65535); legacy2_case(ver, 2, 65536); legacy2_case(ver, 2, 131074);
+        legacy2_case(ver, 3, 43689); legacy2_case(ver, 3, 43690); legacy2_case(ver, 3, 43691); legacy2_case(ver, 3, 131074);
+        for (nb = 1; nb <= 3; nb++) legacy2_case(ver, nb, 4 + rnd() % 131071);
+    }
+}
+
 int main(int argc, char** argv)
 {
     g_mainAddr = (void*)main;
@@ -609,7 +714,8 @@ int main(int argc, char** argv)
         if (p.B * p.nblocks > (4u << 20) || p.B < 1024) { fprintf(stderr, "bad size\n"); return 2; }
         producer_case(&p);
     }
-    else if (argc >= 3 && !strcmp(argv[1], "legacy")) { legacy_init(); legacy_all((unsigned)atoi(argv[2])); }
+    else if (argc >= 3 && !strcmp(argv[1], "legacy")) { legacy_init(); legacy_all((unsigned)atoi(argv[2])); legacy2_all((unsigned)atoi(argv[2])); }
+    else if (argc >= 5 && !strcmp(argv[1], "legacy2")) { legacy_init(); legacy2_case(atoi(argv[2]), (unsigned)atoi(argv[3]), (size_t)strtoull(argv[4], NULL, 10)); }
     else if (argc >= 5 && !strcmp(argv[1], "legacy1")) { legacy_init(); legacy_case(atoi(argv[2]), atoi(argv[3]), (size_t)strtoull(argv[4], NULL, 10)); }
     else { fprintf(stderr, "usage: see the header comment\n"); return 2; }
     printf("DONE bad=%u\n", g_nbBad);
